@@ -19,8 +19,13 @@ impl Interp {
     fn build_config(&self, o: &Value, first: bool) -> BuildConfig {
         let app_dir = self.cfg["app_dir"].as_str().unwrap_or("fixture app");
         let mut c = BuildConfig::new(self.cfg["builder"].as_str().unwrap_or("heroku/builder:24"), app_dir);
-        let bps: Vec<BuildpackReference> = self.cfg["buildpacks"].as_array().map(|a| a.iter().map(|b| BuildpackReference::Other(b.as_str().unwrap().to_string())).collect()).unwrap_or_else(|| vec![BuildpackReference::Other("heroku/procfile".into())]);
+        let bps: Vec<BuildpackReference> = self.cfg["buildpacks"].as_array().map(|a| a.iter().map(|b| {
+            if let Some(s) = b.as_str() { BuildpackReference::Other(s.to_string()) }
+            else if let Some(id) = b["workspace"].as_str() { BuildpackReference::WorkspaceBuildpack(id.parse().unwrap()) }
+            else { BuildpackReference::CurrentCrate }
+        }).collect()).unwrap_or_else(|| vec![BuildpackReference::Other("heroku/procfile".into())]);
         c.buildpacks(bps);
+        if let Some(t) = self.cfg["target_triple"].as_str() { c.target_triple(t); }
         if let Some(env) = self.cfg["build_env"].as_array() {
             for kv in env {
                 c.env(kv[0].as_str().unwrap(), kv[1].as_str().unwrap());
